@@ -394,6 +394,10 @@ def run(prog: Program, rep: Report, tier: str) -> None:
     sample2d_rules(prog, rep)
     optional_discipline(prog, rep)
     newton(prog, rep)
+    from ..share import share
+
+    share(prog, rep, "C06", ("R06.2", "R06.6"), "R16.5", "lon / lat are written to the same record cells as the positions they were converted from", 2, only=lambda o: "lon" in o.construct or "lat" in o.construct)
+
 
 
 from ..selftest import Mut  # noqa: E402
